@@ -5,11 +5,16 @@
 mod calloc;
 mod common;
 mod ref_tables;
+mod refz;
+mod wl;
 
+mod c02;
 mod c04;
 mod c11;
 mod c14;
+mod c16;
 mod c17;
+mod c18;
 mod c19;
 mod c20;
 
@@ -26,10 +31,13 @@ fn main() {
         .build_global()
         .unwrap();
     let code = match args.check.as_str() {
+        "c02" => c02::run(&args),
         "c04" => c04::run(&args),
         "c11" => c11::run(&args),
         "c14" => c14::run(&args),
+        "c16" => c16::run(&args),
         "c17" => c17::run(&args),
+        "c18" => c18::run(&args),
         "c19" => c19::run(&args),
         "c20" => c20::run(&args),
         "c20case" => c20::run_case_child(&args),
